@@ -64,6 +64,14 @@ KERNELS = [
     ("o(i,j) = a(i,j,k) * x(k)", "ss", [("a", T222, "sss"), ("x", (2,), "s")], (2, 2), "llvm"),
     ("o(i,j) = a(i,j,k) * x(k)", "ds", [("a", T222, "dss"), ("x", (2,), "d")], (2, 2), "llvm"),
 ]
+
+
+def _vd(dims, v):
+    """Dimension variant v of a catalogue shape: every size grows by v (equal sizes stay equal, so
+    every kernel stays consistent).  Two calls of one cached method then differ in all dimensions."""
+    return tuple(d + v for d in dims)
+
+
 FRESH_TYPES = sorted({(d, f) for k in KERNELS for _, d, f in k[2]}, key=repr)
 OPERATORS = ["add", "sub", "mul", "scale", "rscale", "matmul"]
 TO_FORMATS = {1: ["s", "d"], 2: ["ds", "ss", "dd", "sd", "d1s0", "s1s0"], 3: ["sss", "dss", "ddd"],
@@ -134,9 +142,10 @@ def gen_plan(seed, cfg):
             if cold:
                 ki = llvm_kernels[ki % len(llvm_kernels)]
             a, of, params, od, be = KERNELS[ki]
-            ops.append({"op": "eval", "dst": dst, "kernel": ki,
-                        "srcs": {p: pick_source(d, f) for p, d, f in params}})
-            names[dst] = ("tensor", od, of, True)
+            v = 1 if rng.random() < 0.3 else 0
+            ops.append({"op": "eval", "dst": dst, "kernel": ki, "variant": v,
+                        "srcs": {p: pick_source(_vd(d, v), f) for p, d, f in params}})
+            names[dst] = ("tensor", _vd(od, v), of, True)
         elif kind == "op" and tensors():
             a = rng.choice(tensors())
             opn = rng.choice(OPERATORS)
@@ -613,6 +622,11 @@ class Run:
         try:
             if kind == "eval":
                 a, of, params, od, be = KERNELS[o["kernel"]]
+                vv = o.get("variant", 0)
+                params = [(p, _vd(d, vv), f) for p, d, f in params]
+                od = _vd(od, vv)
+                if vv:
+                    self.probe("evaluate_with_second_dimension_set")
                 kw = {}
                 ok = True
                 for p, d, f in params:
@@ -802,7 +816,19 @@ class Run:
                     if lg["blocks"] and ent[1] not in m.reachable():
                         self.deleted_kernel_output = True
                         self.probe("last_reference_to_kernel_output_deleted")
-                    if lg["blocks"] and not isinstance(ent[0], Tensor):
+                        if ent[1] not in self.reachable():
+                            # reach counter, not an oracle: was the storage released by reference
+                            # counting at this very del, or is it waiting for a collection?  (The
+                            # statement allows either: a garbage cycle is still a reference.)
+                            obj = ent
+                            ent = None
+                            del obj
+                            heap.drain()
+                            live = [bid for _, bid in lg["blocks"] if bid is not None
+                                    and heap.by_id.get(bid) is not None and heap.by_id[bid].state == "live"]
+                            self.probe("release_deferred_past_the_last_del" if live
+                                       else "released_at_the_last_del")
+                    if ent is not None and lg["blocks"] and not isinstance(ent[0], Tensor):
                         self.probe("struct_alias_deleted")
                 del ent
             elif kind == "gc":
